@@ -361,7 +361,13 @@ class ThresholdedRetrieval(base.MergeableMetric):
   def __post_init__(self):
     thresholds = np.asarray(sorted(self.thresholds), dtype=np.float32)
     object.__setattr__(self, 'thresholds', thresholds)
-    confusion_matrix = _ThresholdedConfusionMatrix(thresholds=thresholds)
+    zeros = np.zeros_like(thresholds, dtype=int)
+    confusion_matrix = _ThresholdedConfusionMatrix(
+        thresholds=thresholds,
+        tp_trues=zeros.copy(),
+        tp_preds=zeros.copy(),
+        p_preds=zeros.copy(),
+    )
     object.__setattr__(self, '_confusion_matrix', confusion_matrix)
     metrics = [RetrievalMetricAtThreshold(metric) for metric in self.metrics]
     object.__setattr__(self, '_metrics', metrics)
